@@ -288,6 +288,11 @@ CLASSES = collections.OrderedDict([
     ('mixed', lambda n: (b'A\x00\xffB\x01\x80' * 4)[:n]),
     ('space', lambda n: b' ' * n),
     ('utf16', lambda n: ('GW5K-ETé' * 3).encode('utf-16be')[:n]),
+    # texts that parse as version numbers, and texts shorter than their field (padded with blanks / NULs, or cut)
+    ('digits', lambda n: (b'1414E02041' * 2)[:n]),
+    ('pad-space', lambda n: (b'1010202041' * 2)[:n - 1] + b' '),
+    ('pad-nul', lambda n: (b'1010202041' * 2)[:n - 1] + b'\x00'),
+    ('one-char', lambda n: b'7' + b' ' * (n - 1)),
 ])
 
 
